@@ -12,7 +12,8 @@ package main
 //   goStmt          a `go` statement
 //   pkgVarWrite     assignment to (or through) a package-level variable outside `init`
 //   recvFieldWrite  a method assigning a field of its pointer receiver, or writing through a field (map / slice / pointer
-//                   element) of any receiver, for receiver types named *Keeper (memory that survives between blocks but not a restart)
+//                   element) of any receiver, whatever the receiver type (keepers, hooks, modules, decorators: memory that
+//                   survives between blocks but not a restart)
 // Types come from go/types run over the repository's own packages (imports of other modules are stubbed: a map whose type
 // is declared outside the repository and never named inside it is not seen — stated in the trusted base).
 // Every item carries the file, the enclosing function and a shape hash of the statement (not a line number), so that moving
@@ -321,7 +322,7 @@ func nondetExtractor(repo string) (map[string]string, error) {
 								add("pkgVarWrite", fn, exprText(w.fset, lhs), x)
 								continue
 							}
-							if recv != nil && id.Name == recv.Name && p.info.Uses[id] == p.info.Defs[recv] && strings.Contains(recvType, "Keeper") {
+							if recv != nil && id.Name == recv.Name && p.info.Uses[id] == p.info.Defs[recv] {
 								if _, isSel := lhs.(*ast.Ident); !isSel && (recvPtr || through) {
 									add("recvFieldWrite", fn, exprText(w.fset, lhs), x)
 								}
